@@ -193,6 +193,18 @@ def export_import(ctx):
     ctx.check("C17.roundtrip.source_untouched",
               ig.bits_equal(f.array, arr) and ig.bits_equal(xa.values, arr if nvdim > 1 else arr[..., 0]),
               **what)
+    # history: the same exported DataArray is imported a second time (a DataArray is the
+    # user's object; they may well feed it to several consumers)
+    ok2, r2 = ctx.expect_ok("C17.roundtrip.accepted", df.Field.from_xarray, xa,
+                            what=dict(what, second_import_of_the_same_dataarray=True))
+    if ok2:
+        reg2 = r2.mesh.region
+        ctx.check("C17.roundtrip.equal",
+                  bool(r2 == f) and ig.bits_equal(r2.array, arr)
+                  and np.array_equal(reg2.pmin, spec.pmin) and np.array_equal(reg2.pmax, spec.pmax)
+                  and np.array_equal(r2.mesh.n, spec.n) and reg2.tolerance_factor == tol,
+                  got=[reg2.pmin, reg2.pmax, r2.mesh.n, r2.nvdim],
+                  second_import_of_the_same_dataarray=True, **what)
 
 
 # ------------------------------------------------- kind 1: attributes removed / absent
@@ -266,6 +278,13 @@ def attrs_removed(ctx):
 def uneven(ctx):
     rng = ctx.rng
     spec = _spec(ctx, min_n=3)
+    if rng.random() < 0.25 and not spec.int_corners and not spec.dyadic:
+        # an axis far from the origin compared with its spacing (a 100 nm sample at
+        # x = 1 mm): the spacing is still what decides, not the distance from the origin
+        mag = 10.0 ** rng.uniform(4, 6)
+        pmin = rng.choice([-1, 1], spec.nd) * mag * spec.cell * spec.n
+        spec = gen.MeshSpec(pmin, spec.cell, spec.n, spec.dims, spec.units, spec.flip)
+        ctx.event("uneven.far_from_origin")
     f, arr, labels, unit, tol = _make(ctx, spec, dtype="float64")
     names = spec.dim_names
     ax = int(rng.integers(0, spec.nd))
